@@ -69,6 +69,8 @@ pub struct Setup {
     pub cup: bool,
     /// true: StateMachineBuilder::start(); false: oneshot_check()
     pub start_mode: bool,
+    /// false: a CUP handler is supplied but Config::omaha_public_keys (informational) stays None
+    pub keys_in_config: bool,
 }
 impl Default for Setup {
     fn default() -> Self {
@@ -78,8 +80,14 @@ impl Default for Setup {
             os_version: "7.7.7".into(),
             cup: false,
             start_mode: false,
+            keys_in_config: true,
         }
     }
+}
+
+pub fn client_public_keys(w: &W) -> Option<omaha_client::cup_ecdsa::PublicKeys> {
+    let g = lock(w);
+    g.client_keys.clone().or_else(|| g.cup.as_ref().filter(|k| !k.keys.is_empty()).map(|k| k.public_keys()))
 }
 
 pub fn make_config(s: &Setup, w: &W) -> Config {
@@ -92,10 +100,7 @@ pub fn make_config(s: &Setup, w: &W) -> Config {
             arch: "sim64".into(),
         },
         service_url: s.service_url.clone(),
-        omaha_public_keys: {
-            let g = lock(w);
-            g.client_keys.clone().or_else(|| g.cup.as_ref().filter(|k| !k.keys.is_empty()).map(|k| k.public_keys()))
-        },
+        omaha_public_keys: if s.keys_in_config { client_public_keys(w) } else { None },
     }
 }
 
@@ -216,7 +221,7 @@ impl Driver {
         let w = &self.w;
         let setup = self.setup.clone();
         let config = make_config(&setup, w);
-        let cup = config.omaha_public_keys.as_ref().map(StandardCupv2Handler::new);
+        let cup = client_public_keys(w).as_ref().map(StandardCupv2Handler::new);
         let cup = if setup.cup { cup } else { None };
         let apps: Vec<App> = setup.apps.iter().map(|a| a.to_app()).collect();
         let app_set = Rc::new(AMutex::new(VecAppSet::new(apps)));
